@@ -17,6 +17,14 @@ import NetaddrVerif.Gen.Iana
                                        → `off/size/ORG/[ADDR,…]` joined by `;` or `!tag`; the second list is what
                                          `seek(o); read(s)` returns for the rows of that key
 * `rec_parse s:<hex>`                  → `ORG/[ADDR,…]` or `!tag`
+* `iana_query_obj A:ver:val|N:ver:val:plen|R:ver:lo:hi`
+                                       → as `iana_query`, for `.info` of any `BaseIP` object; model `Registry.queryObjD`
+* `eui_info ver val h:<oui hex> h:<iab hex>`
+                                       → `OUI|IAB|INFO`: `EUI.oui` (registrations joined by `;`, `-` = None, `!tag`),
+                                         `EUI.iab` (`-` = None, one registration, `!tag`), `EUI.info`
+                                         (`OUI=<registration>` then `;IAB=<registration>` iff the key exists, or `!tag`);
+                                         both registry texts go through parser → `load_index` first;
+                                         model `Registry.euiOui / euiIab / euiInfo`
 -/
 namespace NV.Driver.C19
 open NV NV.Proto NV.Registry
@@ -108,8 +116,41 @@ def parseSlice (tok : String) : Option ((Nat × Nat) × List Char) :=
   | [a, b, h] => do pure ((← a.toNat?, ← b.toNat?), utf8Decode (← hexBytes h.toList))
   | _ => none
 
+def parseObj (tok : String) : Option Contains.Obj :=
+  if tok.startsWith "A:" then (parseAddr tok).map .addr
+  else if tok.startsWith "N:" then (parseNet tok).map .net
+  else if tok.startsWith "R:" then (parseRng tok).map .rng
+  else none
+
+def showReg (x : Nat × Nat × Parsed) : String := s!"{x.1}/{x.2.1}/{showParsed x.2.2}"
+
 def handle (op : String) (args : List String) : Option String :=
   match op, args with
+  | "iana_query_obj", [o] => do
+    pure (showInfoD (queryObjD genTables (← parseObj o)))
+  | "eui_info", [ver, v, ho, hi] => do
+    let ver ← ver.toNat?
+    let v ← v.toNat?
+    let bo ← bigHex ho
+    let bi ← bigHex hi
+    let readO := fun (off size : Nat) => utf8Decode (slice bo off size)
+    let readI := fun (off size : Nat) => utf8Decode (slice bi off size)
+    pure (match ouiPipeline bo, iabPipeline bi with
+      | .error e, _ => showErr e
+      | _, .error e => showErr e
+      | .ok idxO, .ok idxI =>
+        let o := match euiOui readO (dictView idxO) ver v with
+          | .error e => showErr e
+          | .ok none => "-"
+          | .ok (some rs) => ";".intercalate (rs.map showReg)
+        let i := match euiIab readI (dictView idxI) ver v with
+          | .error e => showErr e
+          | .ok none => "-"
+          | .ok (some r) => showReg r
+        let f := match euiInfo readO (dictView idxO) readI (dictView idxI) ver v with
+          | .error e => showErr e
+          | .ok x => "OUI=" ++ showReg x.oui ++ (match x.iab with | none => "" | some r => ";IAB=" ++ showReg r)
+        o ++ "|" ++ i ++ "|" ++ f)
   | "iana_query", [ver, v] => do
     pure (showInfoD (queryD genTables ⟨← ver.toNat?, ← v.toNat?⟩))
   | "ieee_load", [kind, h] => do
